@@ -301,8 +301,12 @@ func layoutSingle(t triple) (key, msg, sig []byte, damage func() string) {
 	if sel%3 == 0 {
 		return t.key, t.msg, t.sig, func() string { return "" }
 	}
-	buf := make([]byte, len(t.key)+len(t.sig)+len(t.msg)+16)
-	off := 0
+	pad := (sel / 3) & 7 // the record starts at every alignment over the calls
+	buf := make([]byte, pad+len(t.key)+len(t.sig)+len(t.msg)+16)
+	for i := 0; i < pad; i++ {
+		buf[i] = 0xA5
+	}
+	off := pad
 	put := func(b []byte) []byte {
 		if b == nil {
 			return nil
@@ -397,8 +401,13 @@ func layoutBatch(entries []triple) (pubs []PublicKey, msgs, sigs [][]byte, damag
 		for i := 0; i < n; i++ {
 			total += len(get(i))
 		}
+		pad := (sel + total) & 7 // the first entry starts at every alignment over the calls
+		total += pad
 		buf = make([]byte, total)
-		off := 0
+		off := pad
+		for i := 0; i < pad; i++ {
+			buf[i] = 0xA5
+		}
 		for i := 0; i < n; i++ {
 			b := get(i)
 			if b == nil {
